@@ -3,6 +3,8 @@
 //! Case line:   `<tag> <ts> <op>;<op>;...`      (ops may be `-` for none)
 //!   tag  `G`                general case
 //!        `D:<k>:<r0,r1,..>` discovery case: k ignored passes, one wrap-around pass, two rotations of R
+//!        `A`                public API only: a listening FdlActiveStation on the simulator bus hears the passes
+//!                           as token telegrams; observed through inspect_token_ring() (W ops only, sa != ts)
 //!   op   `W sa da` witness_token_pass | `C` claim_token | `N a` set_next_station | `R a` remove_station
 //! Result:      one observation per state, `;` separated, the first one right after `new`:
 //!   `<S><ready>:<ns>:<ps>:<a,b,c|->`  S = U|D|V|L (las_state as printed by Debug) or P (Debug panicked)
@@ -62,11 +64,87 @@ fn observe(r: &TokenRing) -> String {
     )
 }
 
+/// Observation through the public API only: `FdlActiveStation::inspect_token_ring()`.
+fn observe_api(fdl: &profirust::fdl::FdlActiveStation) -> String {
+    let r = fdl.inspect_token_ring();
+    let las: Vec<u8> = r.iter_active_stations().collect();
+    let d = format!("{:?}", r);
+    let st = if d.contains("las_state: Uninitialized") {
+        'U'
+    } else if d.contains("las_state: Discovery") {
+        'D'
+    } else if d.contains("las_state: Verification") {
+        'V'
+    } else if d.contains("las_state: Valid") {
+        'L'
+    } else {
+        '?'
+    };
+    let l = if las.is_empty() {
+        "-".to_string()
+    } else {
+        las.iter().map(|a| a.to_string()).collect::<Vec<_>>().join(",")
+    };
+    format!(
+        "{}{}:{}:{}:{}",
+        st,
+        if r.ready_for_ring() { 1 } else { 0 },
+        r.next_station(),
+        r.previous_station(),
+        l
+    )
+}
+
+/// Tag `A`: a listening `FdlActiveStation` on the simulator bus hears token telegrams sent by a
+/// second PHY (only `W` operations, source address different from the own one).
+fn run_api(ts: u8, ops: &str) -> String {
+    use profirust::phy::ProfibusPhy;
+    let baud = profirust::Baudrate::B500000;
+    let r = guarded(|| {
+        let mut out: Vec<String> = Vec::new();
+        let phy_main = profirust::phy::SimulatorPhy::new(baud, "main");
+        let mut phy_ut = phy_main.duplicate("ut");
+        let mut phy_tx = phy_main.duplicate("tx");
+        let mut fdl = profirust::fdl::FdlActiveStation::new(
+            profirust::fdl::ParametersBuilder::new(ts, baud).build(),
+        );
+        fdl.set_online();
+        let mut now = profirust::time::Instant::ZERO;
+        phy_main.set_bus_time(now);
+        fdl.poll(now, &mut phy_ut, &mut ());
+        out.push(observe_api(&fdl));
+        if ops != "-" {
+            for op in ops.split(';') {
+                let t: Vec<&str> = op.split_whitespace().collect();
+                assert_eq!(t[0], "W");
+                let sa: u8 = t[1].parse().unwrap();
+                let da: u8 = t[2].parse().unwrap();
+                phy_tx
+                    .transmit_telegram(now, |tx| Some(tx.send_token_telegram(da, sa)))
+                    .unwrap();
+                now += baud.bits_to_time(33 + 40);
+                phy_main.set_bus_time(now);
+                assert!(!phy_tx.poll_transmission(now));
+                fdl.poll(now, &mut phy_ut, &mut ());
+                out.push(observe_api(&fdl));
+            }
+        }
+        out.join(";")
+    });
+    match r {
+        Ok(s) => s,
+        Err(loc) => format!("PANIC {}", loc),
+    }
+}
+
 pub fn run_case(line: &str) -> String {
     let mut it = line.splitn(3, ' ');
-    let _tag = it.next().unwrap_or("");
+    let tag = it.next().unwrap_or("");
     let ts: u8 = it.next().unwrap_or("0").parse().expect("ts");
     let ops = it.next().unwrap_or("-");
+    if tag == "A" {
+        return run_api(ts, ops);
+    }
     let mut out: Vec<String> = Vec::new();
     let mut param = profirust::fdl::Parameters::default();
     param.address = ts;
@@ -370,6 +448,45 @@ pub fn gen(seed: u64, thorough: bool, out: &mut dyn FnMut(String)) {
         let (_, mut ops) = discovery_ops(&mut rng, &r);
         continuation(&mut rng, &mut r, ts, &mut ops, i % 3 == 0);
         out(format!("G {} {}", ts, ops.join(";")));
+    }
+    // the same through the public API: a listening FdlActiveStation hears the token telegrams
+    for _ in 0..n / 4 {
+        let mut r = random_ring(&mut rng);
+        if r.len() > 12 {
+            r.truncate(12);
+        }
+        let mut ts = pick_ts(&mut rng, &r);
+        while r.contains(&ts) {
+            ts = rng.below(126) as u8;
+        }
+        let (_, mut ops) = discovery_ops(&mut rng, &r);
+        for _ in 0..rng.below(3) {
+            // a leave or a join or a stray pass, then another rotation
+            match rng.below(3) {
+                0 if r.len() > 1 => {
+                    let i = rng.below(r.len() as u64) as usize;
+                    r.remove(i);
+                }
+                1 => {
+                    let b = rng.below(126) as u8;
+                    if !r.contains(&b) && b != ts {
+                        r.push(b);
+                        r.sort();
+                    }
+                }
+                _ => {
+                    let a = rng.byte();
+                    if a != ts {
+                        ops.push(w((a, rng.byte())));
+                    }
+                }
+            }
+            for p in rotation(&r) {
+                ops.push(w(p));
+            }
+        }
+        let ops: Vec<String> = ops.into_iter().filter(|o| !o.starts_with(&format!("W {} ", ts))).collect();
+        out(format!("A {} {}", ts, ops.join(";")));
     }
     // purely random operation soup (mostly garbage, exercises the Discovery/Verification fall-backs)
     for _ in 0..n / 2 {
